@@ -18,7 +18,12 @@
 //	{"ev":"haproxy","n":i,"code":c}                                  call to the (fake) HAProxy admin API, i-th PUT
 //	{"ev":"fault","point":..}                                        injected failure fired here
 //	{"ev":"status","code":c}                                         handler called WriteHeader(c)
-//	{"ev":"reply","code":c,"ok":b,"disk":{path:tag},"tree":sha}      handler returned
+//
+// outdir/trace-conc.ndjson: cases with "updates" (overlapping requests, see runConc): reset{disk,tree,ups,sched}, call{u},
+// gate{u,point,path}, status{u,code}, reply{u,code}, probe{served} after every step, quiet{disk,tree,served} at the end
+//
+//	{"ev":"reply","code":c,"ok":b,"disk":{path:tag},"tree":sha,"loaded":{pp path:tag}}   handler returned; loaded = which
+//	     version of every path-parameter file the engine loaded last (reset carries the same field)
 //
 // The process re-executes itself once with the environment the engine reads at
 // package-initialisation time (ports of the HAProxy admin API).
@@ -38,6 +43,7 @@ import (
 	"net/http/httptest"
 	"os"
 	"path/filepath"
+	"runtime"
 	"sort"
 	"strconv"
 	"strings"
@@ -76,6 +82,16 @@ type Case struct {
 	Fault    *Fault            `json:"fault"`
 	Conc     int               `json:"conc"` // >0: that many goroutines run probe transactions during the update
 	Keep     bool              `json:"keep"` // next update of a HISTORY: tree, engine and handler state stay as the previous update left them
+	// overlapping updates: every update is sent by its own goroutine, which stops at every yield point (hooks fs.remove =
+	// before each file operation, hdm.initialized, hdm.published); Sched names the update that is let go next
+	Updates []CUpd   `json:"updates"`
+	Sched   []string `json:"sched"`
+}
+
+type CUpd struct {
+	Key      string            `json:"key"`
+	Endpoint string            `json:"endpoint"`
+	Payload  map[string]string `json:"payload"`
 }
 
 type Script struct {
@@ -211,10 +227,26 @@ func content(rel, tag string) []byte {
 	case strings.HasPrefix(rel, "quotas/"):
 		return []byte("# quota file " + tag + "\nquotas: []\n")
 	case strings.HasPrefix(rel, "path_params/"):
-		return []byte("# path params " + tag + "\n")
+		// the engine loads path-parameter files recursively and writes every URL it loaded into the file named by
+		// LUNAR_FLOWS_PATH_PARAM_CONFIG: the URL tells which version of which file is loaded
+		return []byte("# path params " + tag + "\npath_params:\n  - url: pp.test/" + ppSlug(rel) + "/" + tag + "/{id}\n")
 	}
 	return []byte(tag)
 }
+
+func ppSlug(rel string) string {
+	return strings.TrimSuffix(filepath.Base(rel), ".yaml")
+}
+
+// files of the universe besides the three probed flows; nested ones live in a sub-directory (flows and quotas are read
+// from the top level only - a nested file there is inert for the engine but still part of the tree; path parameters are
+// read recursively)
+var ppFiles = []string{"path_params/p.yaml", "path_params/team/np.yaml"}
+var universeCat = map[string]int{
+	"flows/a.yaml": 1, "flows/b.yaml": 1, "flows/c.yaml": 1, "flows/team/n.yaml": 1,
+	"quotas/q.yaml": 2, "quotas/team/nq.yaml": 2, "path_params/p.yaml": 3, "path_params/team/np.yaml": 3,
+	"gateway_config.yaml": 4, "metrics.yaml": 5, "default_metrics.yaml": 6}
+var inertFiles = []string{"flows/team/n.yaml", "quotas/team/nq.yaml"}
 
 var allTags = []string{"d1", "v1", "v2", "v3", "bad", "junk", "g1", "g2", "gbad", "m1", "m2", "mbad", "q1", "q2", "p1", "p2"}
 
@@ -236,6 +268,31 @@ type exec struct {
 	hap        *fakeHAProxy
 	quiet      bool // hooks do not probe (concurrent cases)
 	healthFail int
+	trc        *vh.Trace // overlapping-update cases (their own trace, judged by CfgConcTrace)
+	gmu        sync.Mutex
+	gates      map[uint64]*gated
+}
+
+// one overlapping update: its goroutine parks at every yield point until the driver lets it go
+type gated struct {
+	key     string
+	started bool
+	park    chan struct{}
+	release chan struct{}
+	done    chan struct{}
+}
+
+func goid() uint64 {
+	var buf [64]byte
+	n := runtime.Stack(buf[:], false)
+	var id uint64
+	for _, c := range buf[len("goroutine "):n] {
+		if c < '0' || c > '9' {
+			break
+		}
+		id = id*10 + uint64(c-'0')
+	}
+	return id
 }
 
 func (x *exec) abs(rel string) string { return filepath.Join(x.root, rel) }
@@ -296,10 +353,45 @@ func (x *exec) writeDisk(disk map[string]string) {
 		if tag == "none" {
 			continue
 		}
+		if err := os.MkdirAll(filepath.Dir(x.abs(rel)), 0o755); err != nil {
+			vh.Die("mkdir: %v", err)
+		}
 		if err := os.WriteFile(x.abs(rel), content(rel, tag), 0o644); err != nil {
 			vh.Die("write %s: %v", rel, err)
 		}
 	}
+}
+
+// which version of every path-parameter file the engine loaded last (read from the file it generates on every load)
+func (x *exec) loaded() map[string]string {
+	out := map[string]string{}
+	for _, rel := range ppFiles {
+		out[rel] = "none"
+	}
+	b, err := os.ReadFile(os.Getenv("LUNAR_FLOWS_PATH_PARAM_CONFIG"))
+	if err != nil {
+		return out
+	}
+	for _, line := range strings.Split(string(b), "\n") {
+		i := strings.Index(line, "pp.test/")
+		if i < 0 {
+			continue
+		}
+		parts := strings.Split(strings.TrimSpace(line[i:]), "/")
+		if len(parts) < 3 {
+			continue
+		}
+		for _, rel := range ppFiles {
+			if ppSlug(rel) == parts[1] {
+				if out[rel] != "none" && out[rel] != parts[2] {
+					out[rel] = "both"
+				} else {
+					out[rel] = parts[2]
+				}
+			}
+		}
+	}
+	return out
 }
 
 // one probe transaction phase through the engine that is active right now
@@ -388,6 +480,23 @@ func (x *exec) rel(p string) string {
 }
 
 func (x *exec) sink(point string, kv ...any) {
+	if point == "fs.remove" || point == "hdm.initialized" || point == "hdm.published" {
+		x.gmu.Lock()
+		g := x.gates[goid()]
+		x.gmu.Unlock()
+		if g != nil { // yield point of an overlapping update
+			ev := vh.Ev{"ev": "gate", "u": g.key, "point": point}
+			if len(kv) >= 2 {
+				if p, ok := kv[1].(string); ok {
+					ev["path"] = x.rel(p)
+				}
+			}
+			x.trc.Add(ev)
+			g.park <- struct{}{}
+			<-g.release
+			return
+		}
+	}
 	if !x.inCall.Load() {
 		return
 	}
@@ -476,6 +585,7 @@ func (f *fakeHAProxy) ServeHTTP(w http.ResponseWriter, r *http.Request) {
 
 type rw struct {
 	x     *exec
+	u     string // overlapping update this answer belongs to
 	hdr   http.Header
 	code  int
 	body  bytes.Buffer
@@ -484,7 +594,9 @@ type rw struct {
 
 func (w *rw) Header() http.Header { return w.hdr }
 func (w *rw) WriteHeader(c int) {
-	if w.x.inCall.Load() {
+	if w.u != "" {
+		w.x.trc.Add(vh.Ev{"ev": "status", "u": w.u, "code": c})
+	} else if w.x.inCall.Load() {
 		w.x.tr.Add(vh.Ev{"ev": "status", "code": c})
 	}
 	if !w.wrote {
@@ -529,11 +641,11 @@ func (x *exec) body(c Case) []byte {
 	for rel, tag := range c.Payload {
 		switch {
 		case strings.HasPrefix(rel, "flows/"):
-			sub("flows")[filepath.Base(rel)] = enc(rel, tag)
+			sub("flows")[strings.TrimPrefix(rel, "flows/")] = enc(rel, tag)
 		case strings.HasPrefix(rel, "quotas/"):
-			sub("quotas")[filepath.Base(rel)] = enc(rel, tag)
+			sub("quotas")[strings.TrimPrefix(rel, "quotas/")] = enc(rel, tag)
 		case strings.HasPrefix(rel, "path_params/"):
-			sub("path_params")[filepath.Base(rel)] = enc(rel, tag)
+			sub("path_params")[strings.TrimPrefix(rel, "path_params/")] = enc(rel, tag)
 		case rel == "gateway_config.yaml":
 			out["gateway_config"] = enc(rel, tag)
 		case rel == "metrics.yaml":
@@ -582,7 +694,7 @@ func (x *exec) runCase(c Case) {
 		fault = vh.Ev{"point": c.Fault.Point, "nth": c.Fault.Nth}
 	}
 	x.tr.Add(vh.Ev{"ev": "reset", "case": c.ID, "endpoint": c.Endpoint, "method": c.Method, "disk": disk0, "tree": tree0,
-		"payload": payload, "decodable": c.Raw == "", "badb64": badb64, "fault": fault, "keep": c.Keep})
+		"payload": payload, "decodable": c.Raw == "", "badb64": badb64, "fault": fault, "keep": c.Keep, "loaded": x.loaded()})
 	x.observe() // before the update
 
 	var wg sync.WaitGroup
@@ -621,9 +733,109 @@ func (x *exec) runCase(c Case) {
 	if !w.wrote {
 		w.code = 200
 	}
-	x.tr.Add(vh.Ev{"ev": "reply", "code": w.code, "ok": w.code >= 200 && w.code < 300, "disk": disk1, "tree": tree1})
+	x.tr.Add(vh.Ev{"ev": "reply", "code": w.code, "ok": w.code >= 200 && w.code < 300, "disk": disk1, "tree": tree1, "loaded": x.loaded()})
 	x.observe() // after the update: closes the in-flight transaction, opens one more
 	x.observe() // and a transaction entirely after the update
+}
+
+// ---------------------------------------------------------------- overlapping updates
+
+func (x *exec) runConc(c Case) {
+	x.inCall.Store(false)
+	x.mu.Lock()
+	x.fault = nil
+	x.mu.Unlock()
+	x.writeDisk(c.Disk)
+	if w := x.call(http.MethodPost, "/load_flows", nil); w.code != 200 {
+		vh.Die("case %d: baseline load failed: %d %s", c.ID, w.code, w.body.String())
+	}
+	disk0, tree0 := x.snapshot()
+	ups := vh.Ev{}
+	gs := map[string]*gated{}
+	for _, u := range c.Updates {
+		pl := u.Payload
+		if pl == nil {
+			pl = map[string]string{}
+		}
+		ups[u.Key] = vh.Ev{"endpoint": u.Endpoint, "payload": pl}
+		gs[u.Key] = &gated{key: u.Key, park: make(chan struct{}), release: make(chan struct{}), done: make(chan struct{})}
+	}
+	x.trc.Add(vh.Ev{"ev": "reset", "case": c.ID, "disk": disk0, "tree": tree0, "ups": ups, "sched": c.Sched})
+	probe := func() {
+		x.txn++
+		x.trc.Add(vh.Ev{"ev": "probe", "served": x.probePhase(x.dm.VerifActiveStream(), "req", x.txn)})
+	}
+	probe()
+	start := func(u CUpd) {
+		g := gs[u.Key]
+		g.started = true
+		go func() {
+			defer close(g.done)
+			id := goid()
+			x.gmu.Lock()
+			x.gates[id] = g
+			x.gmu.Unlock()
+			defer func() {
+				x.gmu.Lock()
+				delete(x.gates, id)
+				x.gmu.Unlock()
+			}()
+			x.trc.Add(vh.Ev{"ev": "call", "u": u.Key})
+			w := &rw{x: x, u: u.Key, hdr: http.Header{}}
+			x.mux.ServeHTTP(w, httptest.NewRequest(http.MethodPut, "/"+u.Endpoint,
+				bytes.NewReader(x.body(Case{Payload: u.Payload}))))
+			if !w.wrote {
+				w.code = 200
+			}
+			x.trc.Add(vh.Ev{"ev": "reply", "u": u.Key, "code": w.code})
+		}()
+	}
+	byKey := map[string]CUpd{}
+	for _, u := range c.Updates {
+		byKey[u.Key] = u
+	}
+	// let update k run to its next yield point (or to its answer)
+	step := func(k string) {
+		g := gs[k]
+		if g == nil {
+			return
+		}
+		select {
+		case <-g.done:
+			return
+		default:
+		}
+		if !g.started {
+			start(byKey[k])
+		} else {
+			g.release <- struct{}{}
+		}
+		select {
+		case <-g.park:
+		case <-g.done:
+		case <-time.After(60 * time.Second):
+			vh.Die("case %d: update %s neither reached a yield point nor answered", c.ID, k)
+		}
+		probe()
+	}
+	for _, k := range c.Sched {
+		step(k)
+	}
+	for _, u := range c.Updates { // the schedule is over: the rest runs one update after the other
+		for {
+			select {
+			case <-gs[u.Key].done:
+			default:
+				step(u.Key)
+				continue
+			}
+			break
+		}
+	}
+	disk1, tree1 := x.snapshot()
+	x.txn++
+	x.trc.Add(vh.Ev{"ev": "quiet", "disk": disk1, "tree": tree1,
+		"served": x.probePhase(x.dm.VerifActiveStream(), "req", x.txn)})
 }
 
 // ---------------------------------------------------------------- main
@@ -664,6 +876,7 @@ func main() {
 			"DISCOVERY_STATE_LOCATION":           filepath.Join(outdir, "discovery.json"),
 			"REMEDY_STATE_LOCATION":              filepath.Join(outdir, "remedy.json"),
 			"LOG_LEVEL":                          "panic",
+			"LUNAR_FLOWS_PATH_PARAM_CONFIG":      filepath.Join(outdir, "generated_path_params.yaml"),
 			"VERIF_C08_METRICS_SRC":              filepath.Join(repo, "proxy/metrics.yaml"),
 			"LUNAR_PROXY_METRICS_CONFIG_DEFAULT": filepath.Join(root, "default_metrics.yaml"),
 		}
@@ -689,7 +902,8 @@ func main() {
 	if err := os.MkdirAll(root, 0o755); err != nil {
 		vh.Die("mkdir: %v", err)
 	}
-	x := &exec{root: root, tr: vh.NewTrace(), shared: lunar_context.NewMemoryState[[]byte](), count: map[string]int{}}
+	x := &exec{root: root, tr: vh.NewTrace(), trc: vh.NewTrace(), shared: lunar_context.NewMemoryState[[]byte](),
+		count: map[string]int{}, gates: map[uint64]*gated{}}
 	x.hap = &fakeHAProxy{x: x}
 	ln, err := net.Listen("tcp", ":"+os.Getenv("HAPROXY_MANAGE_ENDPOINTS_PORT")) // both address families of localhost
 	if err != nil {
@@ -716,14 +930,18 @@ func main() {
 	x.dm.SetHandleRoutes(x.mux)
 	setup := time.Since(t0)
 
-	x.tr.Add(vh.Ev{"ev": "config", "flows": flowFiles, "cat": map[string]int{
-		"flows/a.yaml": 1, "flows/b.yaml": 1, "flows/c.yaml": 1, "quotas/q.yaml": 2, "path_params/p.yaml": 3,
-		"gateway_config.yaml": 4, "metrics.yaml": 5, "default_metrics.yaml": 6}})
+	x.tr.Add(vh.Ev{"ev": "config", "flows": flowFiles, "cat": universeCat, "inert": inertFiles})
 	t1 := time.Now()
+	x.trc.Add(vh.Ev{"ev": "config", "flows": flowFiles, "fixed": []string{"default_metrics.yaml"}})
 	for _, c := range sc.Cases {
-		x.runCase(c)
+		if len(c.Updates) > 0 {
+			x.runConc(c)
+		} else {
+			x.runCase(c)
+		}
 	}
 	x.tr.Write(filepath.Join(outdir, "trace.ndjson"))
+	x.trc.Write(filepath.Join(outdir, "trace-conc.ndjson"))
 	vh.WriteJSON(filepath.Join(outdir, "stats.json"), map[string]any{
 		"setup_ms": setup.Milliseconds(), "cases": len(sc.Cases), "run_ms": time.Since(t1).Milliseconds(),
 	})
